@@ -532,6 +532,25 @@ func (g *gen) typedCall(generic interface{}) string {
 	return e
 }
 
+// searchJSONForm: the outcome of a search with a successful result re-rendered through its JSON form (typed Go
+// values in the result become what encoding/json writes for them).
+func searchJSONForm(expr string, doc interface{}) string {
+	var r interface{}
+	var err error
+	if p, _ := safely(func() { r, err = jmespath.Search(expr, doc) }); p {
+		return "panic"
+	}
+	if err != nil {
+		return errBase(err)
+	}
+	js, merr := json.Marshal(r)
+	var back interface{}
+	if merr != nil || json.Unmarshal(js, &back) != nil {
+		return "unmarshalable"
+	}
+	return "ok " + jmespath.VerifCanon(back)
+}
+
 // doTyped: answer for "TY <seed> <idx>".
 func doTyped(seedS, idxS string) outcome {
 	seed, _ := strconv.ParseUint(seedS, 10, 64)
@@ -552,6 +571,21 @@ func doTyped(seedS, idxS string) outcome {
 		// must agree with each other (a fast path of one route that knows only generic maps shows up here)
 		if e.nav || e.cmp {
 			wrapped := map[string]interface{}{"w": doc, "z": 1.0}
+			// typed slices as VALUES of a generic map (not struct fields): index, slice, projections, filter, flatten and
+			// the pipe law on them
+			if rv := reflect.Indirect(reflect.ValueOf(doc)); rv.Kind() == reflect.Struct && rv.Type() == tRoot {
+				inMap := map[string]interface{}{"tags": rv.Field(8).Interface(), "nums": rv.Field(6).Interface(), "kids": rv.Field(2).Interface()}
+				var gen interface{}
+				js, _ := json.Marshal(inMap)
+				json.Unmarshal(js, &gen)
+				for _, pe := range [][2]string{{"tags", "[0]"}, {"tags", "[-1]"}, {"nums", "[1:]"}, {"tags", "[*]"}, {"nums", "[?@ > `0`]"}, {"kids", "[*].Label"}, {"kids", "[0].Tags"}, {"[tags, nums]", "[]"}, {"tags", "length(@)"}} {
+					whole := searchJSONForm(pe[0]+" | "+pe[1], inMap)
+					want, _, _ := searchOutcome(pe[0]+" | "+pe[1], gen)
+					if whole != want {
+						o.flags = append(o.flags, "typedinmap:"+hexField(pe[0]+" | "+pe[1])+":want="+truncate(want, 100)+":got="+truncate(whole, 100))
+					}
+				}
+			}
 			// a nil pointer of the document's type as a VALUE of a generic map / list: null for every navigation
 			nilp := reflect.Zero(reflect.PtrTo(tRoot)).Interface()
 			withNil := map[string]interface{}{"nilp": nilp, "l": []interface{}{nilp, 1.0}}
